@@ -92,11 +92,16 @@ inline void arm_watchdog() {
 // Finding key for a dead child.  Memory errors / UB: error class + innermost nifly frame.
 // Hangs and stack exhaustion: error class + OUTERMOST nifly frame (the API entry point), because
 // the innermost frame of a loop / recursion depends on where the signal landed.
-inline std::string crash_key(const vf::CrashInfo& ci, const std::string& repo) {
+inline std::string crash_key(const vf::CrashInfo& ci, const std::string& repo, const std::string& step = "") {
 	std::string cls = ci.cls;
 	if (WIFEXITED(ci.status) && WEXITSTATUS(ci.status) == 99) cls = "timeout";
 	bool outer = cls == "timeout" || cls == "stack-overflow";
 	std::string frame = ci.frame;
+	if (outer && !step.empty()) {
+		std::string st = step;
+		for (auto& c : st) if (c == ' ') c = '_';
+		return cls + "@" + st;
+	}
 	if (outer) {
 		std::istringstream is(ci.text);
 		std::string line, last;
@@ -117,6 +122,8 @@ inline std::string crash_key(const vf::CrashInfo& ci, const std::string& repo) {
 // ---- workloads ----
 // C16: Load(prefix); whatever it returns, if the model reports valid run the query battery and Save; destroy.
 inline int workload_truncated(const std::string& bytes) {
+	bat::g_step_hook = vf::set_step;
+	vf::set_step("Load");
 	NifFile n;
 	s1::load(n, bytes);
 	if (n.IsValid()) {
@@ -124,16 +131,20 @@ inline int workload_truncated(const std::string& bytes) {
 		o.index_free = false;
 		o.hash_only = true;
 		std::string t = bat::model_text(n, o);
+		vf::set_step("Save");
 		std::string out = s1::save(n, false);
 		(void) t;
 		(void) out;
 	}
+	vf::set_step("destroy");
 	return 0;
 }
 
 // C15: Load -> query battery -> copy -> Save(default) -> Load of the output -> destroy.
 // returns 0 = fine, 3 = saved output does not load (a property violation without a crash)
 inline int workload_corrupted(const std::string& bytes) {
+	bat::g_step_hook = vf::set_step;
+	vf::set_step("Load");
 	NifFile n;
 	int rc = s1::load(n, bytes);
 	if (rc != 0 || !n.IsValid()) return 0; // rejecting the file is acceptable
@@ -142,6 +153,7 @@ inline int workload_corrupted(const std::string& bytes) {
 	o.hash_only = true;
 	std::string t = bat::model_text(n, o);
 	(void) t;
+	vf::set_step("copy");
 	{
 		NifFile copy(n);
 		bat::Opt o2;
@@ -150,10 +162,13 @@ inline int workload_corrupted(const std::string& bytes) {
 		std::string t2 = bat::model_text(copy, o2);
 		(void) t2;
 	}
+	vf::set_step("Save");
 	std::string out = s1::save(n, false);
 	if (out.empty()) return 3;
+	vf::set_step("reload of saved output");
 	NifFile m;
 	if (s1::load(m, out) != 0) return 3;
+	vf::set_step("destroy");
 	return 0;
 }
 
